@@ -157,7 +157,7 @@ class Runaway(BaseException):
 
 
 def _guard():
-    if len(CTX.trace) > CTX.limit:
+    if len(CTX.trace) > max(CTX.limit, (CTX.scenario or {}).get("trace_limit", 0)):
         raise Runaway("trace limit")
 
 
@@ -267,6 +267,10 @@ class ScriptedProtocol(IProtocol):
         nid = self.provider.get_id()
         now = self.provider.current_time()
         CTX.trace.append("cb %d %s %s" % (nid, fhex(now), desc))
+        if CTX.scenario.get("interloper"):
+            CTX.fired = getattr(CTX, "fired", 0) + 1
+            if CTX.fired in (2, 5):
+                _interloper()
         k = self.counts[kind]
         self.counts[kind] += 1
         rules = CTX.scenario["script"][nid] if nid < len(CTX.scenario["script"]) else []
@@ -422,12 +426,43 @@ class ScriptedProtocol(IProtocol):
         self._fire("finish", None, "finish")
 
 
+class _Idle(IProtocol):
+    def initialize(self):
+        self.provider.schedule_timer("idle", 0.5)
+
+    def handle_timer(self, timer):
+        pass
+
+    def handle_packet(self, message):
+        pass
+
+    def handle_telemetry(self, telemetry):
+        pass
+
+    def finish(self):
+        pass
+
+
+def _interloper():
+    """an unrelated simulation (own builder, own handlers, one idle node) assembled and run to its end while the scenario
+    under test is in the middle of its run: simulations of one process do not share anything"""
+    b = SimulationBuilder(SimulationConfiguration(execution_logging=False, duration=1.0))
+    b.add_handler(TimerHandler())
+    b.add_node(_Idle, (0.0, 0.0, 0.0))
+    sim = b.build()
+    keep = (CTX.sim,)
+    sim.start_simulation()
+    CTX.sim = keep[0]
+
+
 class ProtoA(ScriptedProtocol):
     pass
 
 
 class ProtoB(ScriptedProtocol):
-    pass
+    """instances are falsy: a protocol that exposes its (empty) buffer through len() is a protocol all the same"""
+    def __len__(self):
+        return 0
 
 
 class ProtoA2(ProtoA):
@@ -524,7 +559,8 @@ def make_assertion(idx, spec):
 
 def _make_assertion(idx, spec):
     kind, arg = spec
-    name = "a%d" % idx
+    # a label is free text: every second one carries characters that mean something to str.format / % / logging
+    name = "a%d" % idx if idx % 2 == 0 else ("a%d" % idx) + " {IDLE, BUSY} {} %s %d {0}"
     if kind == "AP":
         return assert_always_true_for_protocol(PROTO[arg], name)(lambda node: _truthy(_flag(node), idx))
     if kind == "EP":
@@ -575,6 +611,7 @@ def run_sim_impl(sc, variant=None):
     variant = variant or sc.get("variant") or {}
     CTX.scenario, CTX.trace, CTX.draws = sc, [], 0
     CTX.sim = None
+    CTX.fired = 0
     CTX.kept_telemetry = []
     orig_random = random.random
     stream = sc.get("stream")
@@ -745,7 +782,7 @@ def run_sim_impl(sc, variant=None):
 
 
 def _assert_line(e):
-    m = re.search(r'Assertion "a(\d+)"', str(e))
+    m = re.search(r'Assertion "a(\d+)[ "]', str(e))
     return "assertfail %s" % (m.group(1) if m else "?")
 
 
@@ -762,6 +799,7 @@ def _sact_text(a):
 
 
 def sim_to_text(sid, sc, stream, fuel=80000, show_exec=False):
+    fuel = max(fuel, sc.get("fuel", 0))
     p = ["BEGIN %s sim" % sid]
     p.append("H %d" % len(sc["handlers"]))
     for h in sc["handlers"]:
